@@ -29,7 +29,9 @@ ID    = "C13"
 LEVEL = "exploration"
 RULE  = ("seeded (table, pipeline, access script) triples: table in {dense list/tuple, LazyDense with/without loader, "
          "ARFF dense via LazyDense or ArffReader text, CSV text whose header line may be shorter than its data lines, "
-         "sparse dict with int/str keys, LazySparse, ARFF sparse}; pipeline "
+         "sparse dict with int/str keys, LazySparse, ARFF sparse} "
+         "(in ~1/3 of the ARFF tables some tokens look like a missing marker -- an empty field, '' / '?' as a declared nominal level or under an "
+         "encoder that accepts every string -- and are a missing value or an ordinary value depending on the column's type); pipeline "
          "of 0-6 stages from HeadRows(seq/map/permuted map/map or sequence naming only some columns), EncodeRows(seq/map "
          "by index/name), DropRows(cols by index/name, row predicates), LabelRows(index/name; on sparse rows keyed by "
          "header name also by position through any stack of views), EncodeCatRows(onehot/onehot_tuple/string); 10-24 accesses "
@@ -56,7 +58,13 @@ REQUIRED = ["oracle.dense.pos", "oracle.dense.name", "oracle.dense.iter", "oracl
             "reuse.prior.cols-moved", "reuse.prior.names-changed", "reuse.prior.wider", "reuse.prior.narrower",
             "reuse.prior.types-changed", "reuse.prior.other-source", "reuse.prior.cross-layout",
             "reuse.differs.head", "reuse.differs.encode", "reuse.differs.drop", "reuse.differs.label", "reuse.differs.cat",
-            "reuse.differs.label.dense-by-name", "reuse.differs.label.sparse-by-pos"]
+            "reuse.differs.label.dense-by-name", "reuse.differs.label.sparse-by-pos",
+            "domain.marker-token.value.str", "domain.marker-token.value.nom", "domain.marker-token.value.x",
+            "domain.marker-token.missing.num-empty", "domain.marker-token.value@arff_text", "domain.marker-token.value@arff_lazy",
+            "domain.marker-token.value@dense", "domain.marker-token.value@sparse",
+            "oracle.dense.marker-token-is-a-value.pos", "oracle.dense.marker-token-is-a-value.name",
+            "oracle.dense.marker-token-is-a-value.part", "oracle.sparse.marker-token-is-a-value.key",
+            "oracle.sparse.marker-token-is-a-value.part"]
 ASSUMPTIONS = [
     "only keys that exist in the eager model are accessed: positions 0..len-1, header names that survive, sparse keys present in the model row; negative positions, dropped names and out-of-range positions are never used",
     "feats/label are only checked when no column-changing stage follows LabelRows (row-only DropRows may follow); feats is compared by iteration, length, position/key access and equality, never by header name on dense rows",
@@ -66,7 +74,8 @@ ASSUMPTIONS = [
     "encoders never raise on the cells they are applied to; on sparse rows an encoder is only used on a column with absent entries when coba's documented default-zero rule (absent == encoder('0') when that is non-zero, else stays absent) agrees with encoding the column's own implicit zero",
     "EncodeCatRows is only applied when every categorical column holds a Categorical in every surviving row (no missing cells); what feats/label/headers mean after it is not asserted (its output rows are plain lists/dicts)",
     "numbers are compared with == (0 vs 0.0 equal), Categorical vs str and None vs anything are distinguished; list vs tuple is not",
-    "ARFF text is generated in the plainest dialect (no quotes, no comments); dialect questions belong to C12",
+    "ARFF text is generated in the plainest dialect (no comments, no quotes in data lines; the only quoted thing is the empty level '' in a nominal attribute's level list); dialect questions belong to C12",
+    "a raw ARFF token '' or '?' is a missing value (None) only where the column's type has no value for it: numeric columns (both), string columns ('?' only; '' is the empty string), nominal columns unless it is a declared level; under a custom encoder such a token is only generated when the encoder returns a value for it, and that value is the cell; in ARFF text only empty fields of dense lines with at least two columns are used, a declared '?' level only on directly constructed LazyDense/LazySparse rows (whose missing flag is 'some token is ?' by construction)",
     "a prior table is given to the shared filter objects only when the eager model accepts every stage of the chain on it (each stage is a legal use there) and at least one of its rows reaches the end; what the pipeline yields for the prior table is not judged in that case (every such table is a case of its own), only the judged table's rows are",
 ]
 
@@ -89,12 +98,19 @@ def _gen_cell(rng, kind):
     if kind == "cat2":  return {"cat": [rng.choice(["u", "v"]), ["u", "v"]]}
     raise ValueError(kind)
 
-def _gen_tok(rng, typ, miss_p):
-    if typ.startswith("x:"): return rng.choice(["0", "1", "2", "10", "-3"])
+_TOTAL_ENCS = ("x:str", "x:id", "x:dbl", "x:bang")            # custom encoders that have an answer for every string
+
+def _gen_tok(rng, typ, miss_p, empty_p=0):
+    """one raw ARFF token.  With empty_p the token may look like a missing marker where only the column's type says
+    whether it is one: an empty field (missing in a numeric column, the ordinary value '' in a string column), '' / '?'
+    under an encoder that accepts every string; a nominal column that declares '' or '?' as a level uses it like any other"""
+    if typ.startswith("x:"):
+        if typ in _TOTAL_ENCS and rng.random() < empty_p: return rng.choice(["", "", "?"])
+        return rng.choice(["0", "1", "2", "10", "-3"])
     if rng.random() < miss_p: return "?"
-    if typ == "numeric": return rng.choice(["0", "1", "2.5", "-3", "10", "0.25"])
-    if typ == "string":  return rng.choice(["a", "bb", "w1", "zz", "0"])
-    levels = typ[1:-1].split(",")
+    if typ == "numeric": return "" if rng.random() < empty_p / 2 else rng.choice(["0", "1", "2.5", "-3", "10", "0.25"])
+    if typ == "string":  return "" if rng.random() < empty_p else rng.choice(["a", "bb", "w1", "zz", "0"])
+    levels = [M._unquote(l) for l in typ[1:-1].split(",")]
     return rng.choice(levels)
 
 def gen_source(rng, layout):
@@ -103,19 +119,24 @@ def gen_source(rng, layout):
     if r < .38:                                              # ARFF-style lazy rows
         ncols = rng.choice([1, 2, 3, 3, 4, 5, 6, 8])
         names = rng.sample(NAMES, ncols)
-        types = [rng.choice(["numeric", "numeric", "string", "{a,b,c}", "{u,v}", "real", "integer"]) for _ in range(ncols)]
-        miss_p = rng.choice([0, 0, .15])
         kind = rng.choice(["arff_lazy", "arff_lazy", "arff_text"])
+        pool = ["numeric", "numeric", "string", "{a,b,c}", "{u,v}", "real", "integer"]
+        # tokens that look like a missing marker but are ordinary values of their column: empty fields, a declared '' / '?' level
+        # (text: only what the plain dialect can write, i.e. an empty field of a dense line with at least two columns)
+        empty_p = rng.choice([0, 0, .25]) if kind == "arff_lazy" or (layout == "dense" and ncols > 1) else 0
+        if empty_p: pool = pool + ["string", "{'',a,b}"] + (["{'?',u,v}"] if kind == "arff_lazy" else [])
+        types = [rng.choice(pool) for _ in range(ncols)]
+        miss_p = rng.choice([0, 0, .15])
         if kind == "arff_text" and layout == "dense" and ncols == 1: miss_p = 0   # a lone '?' line: the reader's missing flag is C12's business
         if kind == "arff_lazy" and rng.random() < .5:        # LazyDense/LazySparse driven with arbitrary (non-idempotent) encoders
             types = [rng.choice(["x:int", "x:float", "x:str", "x:id", "x:dbl", "x:bang"]) if rng.random() < .6 else t for t in types]
         src = {"kind": kind, "attrs": [[n, t] for n, t in zip(names, types)], "loader": rng.random() < .7}
         norm = lambda t: "numeric" if t in ("real", "integer") else t
         if layout == "dense":
-            src["rows"] = [[_gen_tok(rng, norm(t), miss_p) for t in types] for _ in range(nrows)]
+            src["rows"] = [[_gen_tok(rng, norm(t), miss_p, empty_p) for t in types] for _ in range(nrows)]
         else:
             p = rng.choice([.3, .6, .9])
-            src["rows"] = [[[i, _gen_tok(rng, norm(t), miss_p)] for i, t in enumerate(types) if rng.random() < p] for _ in range(nrows)]
+            src["rows"] = [[[i, _gen_tok(rng, norm(t), miss_p, empty_p)] for i, t in enumerate(types) if rng.random() < p] for _ in range(nrows)]
         return src
     if layout == "dense" and r < .47:                        # CSV text; the header line may be shorter than the data lines
         ncols = rng.choice([1, 2, 3, 3, 4, 5, 6])
@@ -301,8 +322,8 @@ def _cols_of(layout, src):
 def _fill_col(rng, fam, col, rows):
     """(re)generates the type and the cells of one column for the given row indices; keeps its name/key"""
     if fam == "arff":
-        t = rng.choice(["numeric", "string", "{a,b,c}", "{u,v}", "integer"])
-        col["type"] = t; col["cells"] = {r: _gen_tok(rng, _norm_t(t), 0) for r in rows}
+        t = rng.choice(["numeric", "string", "{a,b,c}", "{u,v}", "integer", "{'',a,b}"])
+        col["type"] = t; col["cells"] = {r: _gen_tok(rng, _norm_t(t), 0, .2) for r in rows}
     elif fam == "csv":
         k = rng.choice(["istr", "fstr", "cword"]); col["cells"] = {r: _gen_cell(rng, k) for r in rows}
     else:
@@ -547,6 +568,8 @@ def do_access(dense, row, acc, real_rows):
         if kind == "f_eq":    return bool(row.feats == M.real_row_sparse(arg))
     raise ValueError(kind)
 
+_KEYED = ("pos", "name", "key", "label", "f_pos", "f_key")      # reads of one cell (everything else goes through iteration)
+
 def _mode(kind, got, exp):
     if kind in ("len", "f_len"): return "wrong-length"
     if kind in ("eq", "f_eq"): return "equal-rows-compare-unequal"
@@ -578,9 +601,12 @@ def check_core(spec, ctx=None):
     first = {}
     lay = spec["layout"]
     seen = set()
+    marked = ctx is not None and any(f.startswith("value.") for f in M.marker_features(lay, spec["source"]))
     for ri, accs in enumerate(plan):
         for ai, acc in enumerate(accs):
             note(f"oracle.{lay}.{acc[0]}")
+            if marked and acc[0] in _KEYED and acc[2][0] in ("str", "cat") and acc[2][1] in ("", "?"):
+                note(f"oracle.{lay}.marker-token-is-a-value." + ("part" if acc[0] in ("label", "f_pos", "f_key") else acc[0]))
             try: got = ("ok", do_access(dense, real[ri], acc, real))
             except Exception as e: got = ("raise", type(e).__name__, str(e)[:200])
             first[(ri, ai)] = got
@@ -641,6 +667,9 @@ def shrink(spec, kind, mode, budget=60):
             if _fails(cand, kind, mode):
                 spec = cand; done = True; break
         if done or budget <= 0: break
+    try: plainer = M.demarked(spec["layout"], spec["source"])   # does it need a '' / '?' token that is an ordinary value of its column?
+    except Invalid: plainer = None
+    if plainer is not None and _fails(dict(spec, source=plainer), kind, mode): spec = dict(spec, source=plainer)
     changed = True
     while changed and budget > 0:
         changed = False
@@ -675,8 +704,12 @@ def src_tag(spec):
     k = spec["source"]["kind"]
     if k == "csv_text" and spec["source"].get("header") is not None and len(spec["source"]["header"]) < len(spec["source"]["rows"][0]):
         return "csv[short-header]"
-    return {"list": "plain", "tuple": "plain", "dict": "plain", "lazy": "lazy", "lazy_loader": "lazy",
-            "arff_lazy": "arff", "arff_text": "arff", "csv_text": "csv"}[k]
+    if k.startswith("arff"):
+        # after shrinking such tokens are only left when the failure needs them
+        try: f = M.marker_features(spec["layout"], spec["source"])
+        except Exception: f = ()
+        return "arff[marker-token-is-a-value]" if any(x.startswith("value.") for x in f) else "arff"
+    return {"list": "plain", "tuple": "plain", "dict": "plain", "lazy": "lazy", "lazy_loader": "lazy", "csv_text": "csv"}[k]
 
 def reuse_tag(spec):
     """the sharing history, for the case key: when the prior table is processed and how it differs"""
@@ -722,6 +755,9 @@ def shrink_reuse(spec, kind, mode, budget=80):
         for i in range(len(spec["stages"]) - 1, -1, -1):
             cand = dict(spec, stages=spec["stages"][:i] + spec["stages"][i+1:])
             if fails(cand): spec = cand; changed = True; break
+    try: plainer = M.demarked(spec["layout"], spec["source"])
+    except Invalid: plainer = None
+    if plainer is not None and fails(dict(spec, source=plainer)): spec = dict(spec, source=plainer)
     if spec.get("prior") and spec["prior"]["when"] != "before":  # the plainest history that shows it
         cand = dict(spec, prior=dict(spec["prior"], when="before"))
         if fails(cand): spec = cand
@@ -754,9 +790,11 @@ def check_case(spec, ctx=None):
         except Exception: rp = []
         if not rp: return reuse_report(spec)                 # the failure needs the filter objects to be shared
         spec, res = plain, rp                                # it does not: reported as the plain pipeline's failure
-    # shortest failing prefix
+    # shortest failing prefix; every cell is also read by key there, so that a wrong cell is found at the stage that
+    # introduces it whatever cells the script of the case happened to ask for behind the later stages
+    sweep = [[k, r] for k in dict.fromkeys(k for k in (DENSE_KINDS if spec["layout"] == "dense" else SPARSE_KINDS) if k in _KEYED) for r in range(8)]
     for j in range(len(spec["stages"])):
-        sub = dict(spec, stages=spec["stages"][:j])
+        sub = dict(spec, stages=spec["stages"][:j], script=spec["script"] + sweep)
         try: r = check_core(sub)
         except Exception: continue
         if r:
@@ -821,6 +859,7 @@ def run_shard(ctx):
         spec = gen_case(ctx.rng)
         st, dfeats = domain_features(spec)
         for f in dfeats: ctx.count("domain." + f)
+        for f in M.marker_features(spec["layout"], spec["source"]): ctx.count("domain.marker-token." + f)
         for f in reuse_features(spec): ctx.count("reuse." + f)
         tags = tuple(stage_tag(s) + ":" + str(s.get("form", "")) for s in spec["stages"])
         nontrivial = bool(st.alive_rows()) and st.ncols_any() > 0 and (bool(spec["stages"]) or spec["source"]["kind"] not in ("list", "tuple", "dict"))
